@@ -4,7 +4,7 @@
     Err {UseAfterFree, DoubleFree, Unreachable, ExpectFailed, Panic, Overflow}; "no memory
     error, no internal panic, no overflow on any call sequence" is therefore the statement
     that a run never returns Err. *)
-From MM Require Import Unsync.UInvDefs Unsync.UInv Sketch.SketchSpec Sketch.SketchProofs.
+From MM Require Import Unsync.UInvDefs Unsync.UInv Sketch.SketchSpec Sketch.SketchProofs Sync.SInvDefs Sync.SInvWrites Sync.SInvTop.
 
 (** single-threaded cache: every history runs to completion, in a well-formed state
     (deque nodes and map entries in bijection, no dangling node pointer) *)
@@ -27,6 +27,24 @@ Theorem C08_sketch_safe : forall sk h, sk_wf sk -> N.of_nat (size (sk_table sk))
               N.of_nat (size (sk_table sk')) <= N.of_nat (size (sk_table sk)) + 4.
 Proof. exact increment_ok_load. Qed.
 
+(** concurrent cache (sequential regime, repaired code): every history, with any placement of
+    sync() and in both housekeeping regimes, runs to completion in a state satisfying SInv
+    (node<->EntryInfo bijection, no ghost node, no dangling pointer, FIFO discipline of the
+    queued write ops ...): no use-after-free, no double free, no internal panic, no overflow,
+    and the retry loop of schedule_write_op never runs out of its fuel of 2 *)
+Theorem C08_sync_safe : forall c ops, scfg_ok c -> N.of_nat (length ops) < 2 ^ 18 ->
+  exists r outs, srun_ops c srun_init ops = Ok (r, outs) /\ SInv c (sr_state r).
+Proof. exact srun_safe. Qed.
+
+Theorem C08_sync_step_safe : forall c r o, scfg_ok c -> SInv c (sr_state r) -> s_small (sr_state r) ->
+  exists r' out, sstep c r o = Ok (r', out) /\ SInv c (sr_state r') /\
+    s_next (sr_state r') <= s_next (sr_state r) + 140 /\
+    sk_load_s (sr_state r') <= sk_load_s (sr_state r) + 264 /\
+    sr_now r <= sr_now r'.
+Proof. exact sstep_safe. Qed.
+
+Print Assumptions C08_sync_safe.
+Print Assumptions C08_sync_step_safe.
 Print Assumptions C08_unsync_safe.
 Print Assumptions C08_unsync_step_safe.
 Print Assumptions C08_sketch_safe.
